@@ -422,7 +422,8 @@ def judge_payload(obs, ex, m):
         return fails
     if not ex.resolves or ex.degenerate:
         return fails
-    ok_warn_dup = ex.classes.count('duplicate-skipped') > 0
+    # a carried story whose ID already exists is skipped by inserts (C06)
+    ok_warn_dup = m.kind in ('StoryInsert', 'EAStoryInsert')
     if m.level == 'story':
         sids_before = set(xmlcmp.story_ids(ET.fromstring(obs.before)))
         for p in m.payload:
